@@ -258,6 +258,18 @@ func childSpec(kind string, i int, dom map[string]Dom) []abs.SegSpec {
 		return abs.ConstBytes(5)
 	case "object":
 		return abs.ConstBytes(3, 0, 0, 9)
+	case "ecma":
+		return abs.ConstBytes(8, 0, 0, 0, 0, 0, 0, 9)
+	case "strict":
+		return abs.ConstBytes(10, 0, 0, 0, 0)
+	case "strict1": // one element in the library's keyed element layout (see the C06 known finding)
+		return abs.ConstBytes(10, 0, 0, 0, 1, 0, 1, 'k', 5)
+	case "objnum": // a non-empty nested object
+		a := fmt.Sprintf("num%d", i)
+		return abs.Cat(abs.ConstBytes(3, 0, 1, 'k', 0), abs.BE(a, 8), abs.ConstBytes(0, 0, 9))
+	case "ecmanum":
+		a := fmt.Sprintf("num%d", i)
+		return abs.Cat(abs.ConstBytes(8, 0, 0, 0, 1, 0, 1, 'k', 0), abs.BE(a, 8), abs.ConstBytes(0, 0, 9))
 	}
 	return nil
 }
@@ -285,7 +297,7 @@ func amfDecodeCases() []amfDec {
 		}
 		cases = append(cases, amfDec{name: t + ",object-end-marker-as-named-value", typ: t, ctor: "New" + t, dom: dom, spec: spec, nprops: -1, expErr: true})
 	}
-	kinds := [][]string{{}, {"number"}, {"string", "null"}, {"object", "number"}}
+	kinds := [][]string{{}, {"number"}, {"string", "null"}, {"object", "number"}, {"ecma", "number"}, {"strict", "number"}, {"strict1", "null"}, {"objnum", "null"}, {"ecmanum", "number"}}
 	for _, ks := range kinds {
 		for _, t := range []string{"Object", "EcmaArray", "StrictArray"} {
 			dom := map[string]Dom{"cnt": {W: 32, Hi: -1}}
